@@ -4,6 +4,8 @@ import Tw.Proofs.Conn6
 import Tw.Proofs.Conn7
 import Tw.Model.OnlineNet
 import Tw.Proofs.ConnProgress
+import Tw.Proofs.ConnTimed6
+import Tw.Proofs.ConnTimed7
 
 /-!
 # C02 — the connection makes progress: every call returns, the deadline is finite
@@ -27,9 +29,16 @@ the theorem is `conn7_deadline_finite_partial`, the counterexample `conn7_deadli
 delivered once, in order), from every state reachable under an arbitrary admissible prefix at most
 four fair rounds reach `quiescent` (everything handed over, queues and packets empty, no resend
 request pending); the bound is constant.  Handshake: `handshake6_fair` (two deliveries) and
-`handshake7_fair` (four deliveries) make the connector `Online` and `Ready`.  Not composed into one
-statement over two full connections with clocks (ticks at the reported deadline): the
-`C02/not-quiescent` oracle checks exactly that on the implementation.
+`handshake7_fair` (four deliveries) make the connector `Online` and `Ready`.  (c') **Timed fair suffix over two full connections** (`Tw/Model/NetSim.lean`, `World`: two complete
+`Conn6`/`Conn7` values incl. tokens and timers, clock, per-endpoint datagram histories — builder
+`connc01`): `C02_timed_progress6_partial`, `C02_timed_progress7_partial` — from every world reached by
+an admissible schedule from two fresh connections in which both sides are `Online`, four timed
+rounds (clock +1 s, both tick, clock +0.5 s, both tick, the datagrams emitted by the ticks delivered
+in order) reach quiescence; every tick of the round is at or after the reported deadline
+(`timers_due6/7`) and the two sides hold the same token (`tokens_agree6/7`), for every reachable
+world.  `C02_fair_progress6_partial` / `C02_fair_progress7_partial` strengthen the round: every datagram sent
+during the suffix is delivered, the answers to resend requests included.  Partial only in that the
+handshake rounds (`handshake6_fair` / `handshake7_fair`) are not composed with it.
 -/
 namespace Tw.Props.C02
 open Tw.Conn Tw.Time
@@ -220,6 +229,88 @@ theorem fair_round_demo :
           (s'.ep true).resendQueue.isEmpty && (s'.ep false).resendQueue.isEmpty &&
           (s'.ep true).packet.chunks.isEmpty && (s'.ep false).packet.chunks.isEmpty) = true := by
   decide +kernel
+
+/-! ### (c') timed fair suffix over two full connections -/
+
+section Timed
+open Tw.NetSim
+
+/-- **0.6 (with and without token, `tl`), timed**: from every world reachable by an admissible schedule
+(H1/H2 of C01) from two fresh connections in which both sides are online, four timed rounds — clock
++1 s, both tick, clock +0.5 s, both tick, then the datagrams the ticks emitted are delivered in order —
+reach quiescence: everything submitted handed over in both directions, both resend queues and packets
+empty, no resend request pending.  `_partial`: (i) both sides already `Online` (handshake rounds:
+`handshake6_fair`); (ii) the round delivers the datagrams emitted by the ticks, not those emitted while a
+delivery is processed. -/
+theorem C02_timed_progress6_partial (tl : Bool) (alt : P6.Alt) (sched : List (Move (proto6 tl)))
+    (w : World (proto6 tl)) (hadm : admissible (World.init (proto6 tl)) sched = true)
+    (hrun : NetSim.run (World.init (proto6 tl)) sched = some w) {ta tb : Option Nat} {oa ob : Tw.Conn.Online}
+    (ha : w.a.conn.state = .online ta oa) (hb : w.b.conn.state = .online tb ob) :
+    ∃ w', timedRounds alt 4 w = some w' ∧ w'.quiescent :=
+  P6.timed_progress6 tl alt sched w hadm hrun ha hb
+
+/-- **0.7, timed** (same statement) -/
+theorem C02_timed_progress7_partial (sched : List (Move proto7)) (w : World proto7)
+    (hadm : admissible (World.init proto7) sched = true) (hrun : NetSim.run (World.init proto7) sched = some w)
+    {oa ta ob tb : Nat} {ca cb : Tw.Conn.Online} (ha : w.a.conn.state = .online oa ta ca)
+    (hb : w.b.conn.state = .online ob tb cb) :
+    ∃ w', timedRounds () 4 w = some w' ∧ w'.quiescent :=
+  P7.timed_progress7 sched w hadm hrun ha hb
+
+/-- **0.6, the full fair suffix**: as above, but every datagram sent during the suffix is delivered —
+the ticks' datagrams *and* the answers to resend requests emitted while a delivery is processed
+(`fairRoundT`: delivery cursors per direction; leftovers of the previous round first).  The only
+remaining reason for `_partial` is that both sides are already `Online` (handshake rounds:
+`handshake6_fair`). -/
+theorem C02_fair_progress6_partial (tl : Bool) (draws : List Nat) (alt : P6.Alt) (sched : List (Move (proto6 tl)))
+    (w : World (proto6 tl)) (hadm : admissible (World.init (proto6 tl)) sched = true)
+    (hrun : NetSim.run (World.init (proto6 tl)) sched = some w) {ta tb : Option Nat} {oa ob : Tw.Conn.Online}
+    (ha : w.a.conn.state = .online ta oa) (hb : w.b.conn.state = .online tb ob) :
+    ∃ s', fairRoundsT draws alt 4 (FairState.start w) = some s' ∧ s'.w.quiescent :=
+  P6.fair_progress6 tl draws alt sched w hadm hrun ha hb
+
+/-- **0.7, the full fair suffix** -/
+theorem C02_fair_progress7_partial (draws : List Nat) (sched : List (Move proto7)) (w : World proto7)
+    (hadm : admissible (World.init proto7) sched = true) (hrun : NetSim.run (World.init proto7) sched = some w)
+    {oa ta ob tb : Nat} {ca cb : Tw.Conn.Online} (ha : w.a.conn.state = .online oa ta ca)
+    (hb : w.b.conn.state = .online ob tb cb) :
+    ∃ s', fairRoundsT draws () 4 (FairState.start w) = some s' ∧ s'.w.quiescent :=
+  P7.fair_progress7 draws sched w hadm hrun ha hb
+
+/-- in every reachable world (no admissibility needed) an online endpoint and its pending-or-online
+peer hold the same token, so neither drops the other's datagrams -/
+theorem tokens_agree6 (tl : Bool) (sched : List (Move (proto6 tl))) (w : World (proto6 tl))
+    (hrun : NetSim.run (World.init (proto6 tl)) sched = some w) (s : Side) {t1 : Option Nat} {o1 : Tw.Conn.Online}
+    (h1 : (w.get s).conn.state = .online t1 o1) {t2 : Option Nat}
+    (h2 : P6.stTok (w.get s.other).conn.state = some t2) : t1 = t2 :=
+  P6.tokens_agree6 tl sched w hrun s h1 h2
+
+theorem tokens_agree7 (sched : List (Move proto7)) (w : World proto7)
+    (hrun : NetSim.run (World.init proto7) sched = some w) (s : Side) {t o : Nat}
+    (h1 : (w.get s).conn.state.theirToken? = some t) (h2 : (w.get s.other).conn.state.ownToken? = some o) : t = o :=
+  P7.tokens_agree7 sched w hrun s h1 h2
+
+/-- in every reachable world, while a deadline is reported the send timer is due within 500 ms and
+every retransmission timer within 1 s (0.7 `PendingConnect` unconstrained: D23) -/
+theorem timers_due6 (tl : Bool) (sched : List (Move (proto6 tl))) (w : World (proto6 tl))
+    (hrun : NetSim.run (World.init (proto6 tl)) sched = some w) : P6.Timed w.now w.a.conn ∧ P6.Timed w.now w.b.conn :=
+  P6.timers_due6 tl sched w hrun
+
+theorem timers_due7 (sched : List (Move proto7)) (w : World proto7)
+    (hrun : NetSim.run (World.init proto7) sched = some w) : P7.Timed w.now w.a.conn ∧ P7.Timed w.now w.b.conn :=
+  P7.timers_due7 sched w hrun
+
+-- non-vacuity: an admissible busy schedule that ends online and unsettled, settled after four timed rounds
+example : admissible (World.init (proto6 false)) (busy6 false) = true := by decide +kernel
+example : (((NetSim.run (World.init (proto6 false)) (busy6 false)).bind (timedRounds .exact 4)).map World.settled) = some true := by
+  decide +kernel
+example : (((NetSim.run (World.init proto7) busy7).bind (timedRounds () 4)).map World.settled) = some true := by
+  decide +kernel
+example : (((NetSim.run (World.init (proto6 false)) (busy6 false)).bind fun w =>
+    fairRoundsT (P := proto6 false) [] P6.Alt.exact 4 (FairState.start w)).map fun s => s.w.settled) = some true := by
+  decide +kernel
+
+end Timed
 
 /-! ### the handshake rounds (separate from the online phase) -/
 
